@@ -135,6 +135,27 @@ Prop2 == {Un("not", a) : a \in Prop1}
          \cup {Bn(op, a, b) : op \in LogicOps, a \in {Own("q"), AB, AC}, b \in Prop1}
 AliasExprs == Prop2 \cup {Un("not", a) : a \in {t \in Prop2 : t.k = "un"}}
 
+(* ---- a this-rooted and an alias-rooted reference in every child slot of every node kind ---- *)
+SlotRefs == {Own("x"), Fld(VarR("@A"), "n"), Fld(Fld(VarR("@A"), "m"), "n"), Idx(Fld(VarR("@A"), "ns"), NumA("0")), Fld(Own("m"), "n")}
+SlotNum(r) ==
+  { r, Un("-", r), Bn("+", r, NumA("1")), Bn("-", NumA("1"), r), Bn("*", r, r),
+    Call("abs", r), Call("abs", Bn("+", r, NumA("1"))),
+    Idx(Own("xs"), r), Idx(Own("xs"), Bn("+", r, NumA("1"))), Idx(Own("xs"), Bn("-", Bn("+", r, NumA("1")), NumA("1"))),
+    Idx(Fld(VarR("@A"), "ns"), r), Idx(Own("xs"), Idx(Own("ys"), r)),
+    Call("sum", SetOf(<<r, NumA("1")>>)), Call("max", Rng("[", r, NumA("3"), "]")), Call("len", Rng("[", NumA("0"), r, "]!")) }
+SlotBool(r) ==
+  {Bn(op, t, Own("y")) : op \in {"=", "<"}, t \in SlotNum(r)}
+  \cup {Bn(">", Own("y"), t) : t \in SlotNum(r)}
+  \cup { Bn("in", r, SetOf(<<NumA("1"), NumA("2")>>)), Bn("in", Own("y"), SetOf(<<r, NumA("2")>>)),
+         Bn("in", Own("y"), Rng("[", r, NumA("3"), "]")), Bn("in", Own("y"), Rng("![", NumA("0"), r, "]!")),
+         Bn("in", r, Own("xs")), Bn("in", r, Fld(VarR("@A"), "ns")),
+         Qn("forall", "k", Own("xs"), Bn("<", K, r)), Qn("exists", "k", Fld(VarR("@A"), "ns"), Bn("<", K, r)),
+         Qn("forall", "k", SetOf(<<r, NumA("1")>>), Bn("<", K, Own("y"))),
+         Qn("forall", "k", Rng("[", NumA("0"), r, "]"), Bn("<", Idx(Own("xs"), K), Own("y"))),
+         Un("not", Bn("<", r, Own("y"))), Bn("and", Bn("<", r, Own("y")), Own("p")),
+         Bn("implies", Own("p"), Bn("=", r, NumA("1"))), Bn("iff", Bn("<", r, NumA("1")), Bn("<", Own("y"), r)) }
+SlotExprs == UNION {SlotNum(r) \cup SlotBool(r) : r \in SlotRefs}
+
 Members ==
   CASE Family = "num2"    -> Num2
     [] Family = "bool2"   -> Bool2
@@ -147,6 +168,7 @@ Members ==
     [] Family = "incl"    -> Inclusions
     [] Family = "quants"  -> QuantExprs
     [] Family = "alias"   -> AliasExprs
+    [] Family = "slots"   -> SlotExprs
     [] OTHER -> {}
 
 TInit == cst \in Members
